@@ -479,6 +479,37 @@ def py_best(d, sent):
     return v[d["final"]]
 
 
+def single_hop(d):
+    """the grammar as the search uses a closed grammar: at most ONE null arc between two words (and before the first /
+    after the last).  States (q, 0) = 2q and (q, 1) = 2q + 1 ("a null arc was just taken"), fresh final state."""
+    N = max([d["n"], d["start"] + 1, d["final"] + 1] + [max(a, b) + 1 for (a, b, _, _) in d["arcs"]])
+    arcs = []
+    for (a, b, lp, w) in d["arcs"]:
+        if w < 0:
+            arcs.append((2 * a, 2 * b + 1, lp, -1))
+        else:
+            arcs += [(2 * a, 2 * b, lp, w), (2 * a + 1, 2 * b, lp, w)]
+    F = 2 * N
+    arcs += [(2 * d["final"], F, 0, -1), (2 * d["final"] + 1, F, 0, -1)]
+    return {"n": F + 1, "start": 2 * d["start"], "final": F, "arcs": arcs, "vocab": d["vocab"], "sil": d["sil"], "alt": d["alt"]}
+
+
+def not_closed(d, z):
+    """pairs of consecutive null arcs a->b->c (a != c) whose composition is not dominated by a null arc a->c"""
+    nul = {}
+    for (a, b, lp, w) in d["arcs"]:
+        if w < 0:
+            nul[(a, b)] = max(nul.get((a, b), lp), lp)
+    bad = []
+    for (a, b), l1 in nul.items():
+        for (b2, c_), l2 in nul.items():
+            if b2 == b and a != c_:
+                want = max(l1 + l2, z)
+                if nul.get((a, c_), want - 1) < want:
+                    bad.append({"a": a, "b": b, "c": c_, "sum": l1 + l2, "have": nul.get((a, c_))})
+    return bad
+
+
 TRANSFORMS = ("closure", "silence", "alt", "addsilences", "addaltpron", "dict")
 
 
@@ -597,7 +628,7 @@ class Runner:
                       "roundtrips": 0, "roundtrips_skipped_below_float32": 0, "roundtrip_exact_logp": 0, "roundtrip_total_arcs": 0,
                       "best_sentences": 0, "best_accepting": 0, "best_crosschecks": 0, "arc_iterations_checked": 0, "readlaw_tokens": 0, "readlaw_violations": [], "best_oracle_skipped_saturating": 0, "saturating_closures": 0, "best_crosscheck_failures": [],
                       "branch_outcomes": {}, "read_ok": 0, "read_err": 0,
-                      "closure_added": 0, "closure_raised_or_added_cases": 0}
+                      "closure_added": 0, "closure_raised_or_added_cases": 0, "closedness_checks": 0}
 
     def run_driver(self, text, timeout=1800):
         """the driver binary is shared by all checks and relinked whenever any model changes: run a private copy"""
@@ -704,6 +735,16 @@ class Runner:
                                 self.stats["best_oracle_skipped_saturating"] += 1
                             for l in ol:
                                 script.append(l); tags.append(("oracle", ci, oi, names, list(since)))
+                            if list(since) == ["closure"]:
+                                # what closing is for: with ONE null hop between words the closed grammar accepts what the
+                                # original accepts with null chains
+                                l1, names1 = oracle_lines(d1, single_hop(d2), blen)
+                                script.append(l1[0]); tags.append(("oracle", ci, oi, names1, ["closure (closed grammar used with single null hops)"]))
+                    if prev_dump is not None and oi >= 1 and case[oi - 1].split()[0] in ("read", "reread") and ho[oi - 1].strip() == "ok":
+                        d2 = parse_dump(o)
+                        if d2:   # the reader closes: single-hop use of what it returns = its full language
+                            l1, names1 = oracle_lines(d2, single_hop(d2), blen)
+                            script.append(l1[0]); tags.append(("oracle", ci, oi, names1, ["read (returned grammar used with single null hops)"]))
                     dd = parse_dump(o)
                     if dd and (ci + oi) % 7 == 0:
                         syms = sorted({w_ for (_, _, _, w_) in dd["arcs"] if w_ >= 0})[:3]
@@ -841,6 +882,13 @@ class Runner:
                     self.stats["idempotence_checks"] += 1
                     if d1 != d2:
                         r["idem"].append({"op": between[0], "first": d1, "second": d2})
+                if len(between) == 1 and between[0] == "closure" and d2:
+                    zero_ = int(ho[0].split()[1]) if ho and ho[0].startswith("ok ") else -536870912
+                    self.stats["closedness_checks"] += 1
+                    nc = not_closed(d2, zero_)
+                    if nc:
+                        r["idem"].append({"op": "closure", "problem": "the result is not closed: consecutive null arcs a->b->c without a null arc a->c "
+                                          "at least as probable as their (saturated) sum", "pairs": nc[:4]})
                 if len(between) == 1 and between[0] == "closure" and d1 and d2 and d1["arcs"] != d2["arcs"]:
                     self.stats["closure_raised_or_added_cases"] += 1
                     self.stats["closure_added"] += len(d2["arcs"]) - len(d1["arcs"])
@@ -972,23 +1020,30 @@ def check(c):
     allok, nev, distinct, known = True, 0, set(), set()
     nviol = 0
 
+    pending = []   # problem cases; reported at the end, those with a concrete failing input first
+
     def judge(cases, label, blen=3):
-        nonlocal allok, nviol
+        nonlocal allok
         res = runner.run(cases, blen)
-        # cases in which the implementation-side oracle itself saw the property fail are reported first
-        order = sorted(range(len(cases)), key=lambda i: 0 if (res[i]["oracle"] or res[i]["idem"] or res[i]["round"] or res[i]["crash"]) else 1)
-        for case, r in ((cases[i], res[i]) for i in order):
+        for case, r in zip(cases, res):
             if problems_of(r):
-                if nviol >= 3:
-                    allok = allok and not (r["diff"] or r["oracle"] or r["idem"] or r["crash"])
-                    continue
-                k = report(c, runner, case, r, label)
-                if k is None or k not in [kk for kk, _ in c.known_hits]:
-                    nviol += 1
-                    if r["diff"] or r["oracle"] or r["idem"] or r["crash"]:
-                        allok = False
-                else:
-                    known.add(k)
+                found = bool(r["oracle"] or r["idem"] or r["round"] or r["crash"])
+                if r["diff"] or r["oracle"] or r["idem"] or r["crash"]:
+                    allok = False
+                if len(pending) < 40:
+                    pending.append((0 if found else 1, len(pending), case, r, label))
+
+    def flush():
+        """shrink and report at most three problem cases, implementation-side property failures first"""
+        nonlocal nviol
+        for _, _, case, r, label in sorted(pending, key=lambda x: (x[0], x[1])):
+            if nviol >= 3:
+                break
+            k = report(c, runner, case, r, label)
+            if k is None or k not in [kk for kk, _ in c.known_hits]:
+                nviol += 1
+            else:
+                known.add(k)
     # corpus first
     ncorp = 0
     for f in sorted((vlib.ROOT / "corpus" / "C13").glob("*.ops")):
@@ -1008,7 +1063,7 @@ def check(c):
             judge(batch, f"generated batch ending at case {i}")
             nev += len(batch)
             batch = []
-            if nviol >= 3:
+            if len(pending) >= 12:
                 break
     batch = []
     for i in range(nread):
@@ -1022,7 +1077,7 @@ def check(c):
             nev += len(batch)
             batch = []
     exhaustive = 0
-    if nviol == 0:
+    if not pending:
         weights = [0, -1] if c.tier == "quick" else [0, -1, -3]
         batch = []
         for ops in exhaustive_null_graphs(weights):
@@ -1043,6 +1098,7 @@ def check(c):
                 batch = []
         if batch:
             judge(batch, "exhaustive 3-state null graphs at log-zero", blen=1)
+    flush()
     # ownership: the first generated batch again under LeakSanitizer (fsg_model_free, reader error paths, glists)
     lrng = vlib.Rng(c.seed * 7919 + 13)
     lstats = {"logp_kinds": {}, "lw": {}, "states": {}, "phases": {}, "read_kinds": {}, "max_chain": 0, "branches": dict.fromkeys(stats["branches"], 0)}
@@ -1081,6 +1137,7 @@ def check(c):
                   "leak_checked_cases": len(leak_cases),
                   "idempotence_checks_on_implementation": st["idempotence_checks"],
                   "closure_cases_that_changed_the_grammar": st["closure_raised_or_added_cases"],
+                  "closedness_checks_on_implementation": st["closedness_checks"],
                   "null_links_added_by_closure": st["closure_added"],
                   "write_read_round_trips": st["roundtrips"],
                   "round_trips_not_judged_probability_below_float32_range": st["roundtrips_skipped_below_float32"], "round_trips_with_identical_logprobs": st["roundtrip_exact_logp"],
